@@ -501,6 +501,13 @@ func (c *Ctx) Finish() int {
 	if len(c.Samples) == 0 {
 		cov["samples"] = []any{"(none)"}
 	}
+	if c.Assume == nil {
+		c.Assume = []string{}
+	}
+	if c.Trusted == nil {
+		c.Trusted = []string{}
+	}
+	cov["trusted_base"] = c.Trusted
 	evd := map[string]any{
 		"property_id": c.ID, "tier": c.Tier, "seed": c.Seed, "level": level,
 		"coverage": cov, "assumptions": c.Assume,
